@@ -163,7 +163,12 @@ func clSignSet(c *simkit.Ctx, p *clParty, hash common.Uint256, canonical bool) c
 		}
 	}
 	// m of the members sign (tape-chosen subset, in tape-chosen order)
-	signers := t.Perm(n)[:p.m]
+	// m of the members sign; sometimes more than m do (wallets let every holder sign)
+	k := p.m
+	if n > p.m && t.Prob(1, 4) {
+		k += 1 + t.Choose(n-p.m)
+	}
+	signers := t.Perm(n)[:k]
 	var sigs [][]byte
 	for _, i := range signers {
 		sg, err := signature.Sign(p.accs[i], hash[:])
@@ -175,17 +180,19 @@ func clSignSet(c *simkit.Ctx, p *clParty, hash common.Uint256, canonical bool) c
 
 // clWorld is the cluster.
 type clWorld struct {
-	c          *simkit.Ctx
-	A          *world.Chain
-	Sync       []*world.Chain
-	parties    []*clParty
-	eth        []*ethAcct
-	nonce      uint32
-	ts         uint32
-	pendingEth map[ethcomm.Address]uint64 // EIP-155 transactions generated for the block being built
-	prepared   bool                       // a setGlobalParam succeeded
-	repriced   bool                       // ... and a later createSnapshot activated it
-	strict     bool                       // only canonical scripts, no Ethereum-type keys in Ontology-format transactions
+	c           *simkit.Ctx
+	A           *world.Chain
+	Sync        []*world.Chain
+	parties     []*clParty
+	eth         []*ethAcct
+	nonce       uint32
+	ts          uint32
+	pendingEth  map[ethcomm.Address]uint64 // EIP-155 transactions generated for the block being built
+	lastMt      *types.MutableTransaction  // unsigned body and signers of the last Ontology-format transaction generated
+	lastSigners []*clParty
+	prepared    bool // a setGlobalParam succeeded
+	repriced    bool // ... and a later createSnapshot activated it
+	strict      bool // only canonical scripts, no Ethereum-type keys in Ontology-format transactions
 }
 
 type ethAcct struct {
@@ -408,7 +415,36 @@ func (w *clWorld) genTxBytes(allowNonCanonical bool) (raw []byte, desc string) {
 	for _, p := range signers {
 		names += p.name + ","
 	}
+	w.lastMt, w.lastSigners = mt, signers
 	return clAssemble(c, mt, sets), fmt.Sprintf("%s signers=[%s] noncanonical-script=%v", desc, names, nonCanon)
+}
+
+// genResigned: the body of the last generated transaction (same hash) under
+// another signer set - the payer alone, or the payer and other parties. The
+// hash of an Ontology-format transaction does not cover its signatures, so
+// both are valid transactions that a node may see one after the other.
+func (w *clWorld) genResigned() ([]byte, string) {
+	c, t := w.c, w.c.Tape
+	if w.lastMt == nil {
+		return nil, ""
+	}
+	signers := []*clParty{w.lastSigners[0]}
+	perm := t.Perm(len(w.parties))
+	for i, extra := 0, t.Choose(3); i < len(perm) && len(signers) < 1+extra; i++ {
+		p := w.parties[perm[i]]
+		if p == w.lastSigners[0] || (w.strict && p.hasEthKey()) {
+			continue
+		}
+		signers = append(signers, p)
+	}
+	hash := w.lastMt.Hash()
+	var sets []clSigSet
+	names := ""
+	for _, p := range signers {
+		sets = append(sets, clSignSet(c, p, hash, true))
+		names += p.name + ","
+	}
+	return clAssemble(c, w.lastMt, sets), fmt.Sprintf("re-signed body of the previous transaction signers=[%s]", names)
 }
 
 // genParamTx: the parameter operator (the bookkeeper on a solo network)
